@@ -451,3 +451,9 @@ def run(repo: Repo, rep: Report, tier: str) -> None:
     from .c07 import array_count_fold_rule
 
     array_count_fold_rule(repo, rep, "C17.R12")
+    from .c05 import codec_fold_rule
+    from .share import share_rules
+
+    share_rules(repo, rep, tier, "c18", {"C18.R1": "C17.R13"}, "a structure whose generated __eq__ / __hash__ / __bool__ / __init__ were not rebuilt after its field list changed compares and constructs by the old fields")
+    share_rules(repo, rep, tier, "c07", {"C07.R4": "C17.R14"}, "a wrong-sized array that is dumped shifts every field behind it")
+    codec_fold_rule(repo, rep, "C17.R15")
